@@ -1,7 +1,7 @@
 # driver configuration and manifest text for C01 (loaded by checks_conf.py)
 CHECK = {'level': 'exploration',
  'exhaustive': False,
- 'rule': 'cache part: every sequence of length <= 5 (thorough 6, and 7 over a 9-symbol sub-alphabet) over a 15-symbol alphabet '
+ 'rule': 'cache part: every sequence of length <= 5 (thorough: 6 for max length 1 and 2, and 7 over a 9-symbol sub-alphabet for max length 2) over a 15-symbol alphabet '
          '(write a/b/c, remove-from-channel, delete, gap, delayed write of a skipped sequence, late insert, four reads, purge, age prune, evict) '
          'on a real singleChannelCacheImpl with ChannelCacheMaxLength 1, 2, 3, plus random sequences of length 12 (distinct_nontrivial = distinct '
          'random operation sequences + 1 for the enumeration); db part: one generated serial history of 22-28 writes (create / update / move '
